@@ -41,6 +41,7 @@ struct Scenario {
     readers_mapped: usize,
     pollers: usize,
     copiers: usize,
+    slow_reload: bool,
     millis: u64,
 }
 
@@ -198,6 +199,25 @@ fn run_scenario(sc: &Scenario, out_violations: &Mutex<Vec<(String, String)>>) ->
                 report("hot_reload-returned-early", format!("after hot_reload #{k} returned: version {v}, reload id {id}"));
             }
         }
+        // one slow reload: hot_reload must still wait for it
+        if sc.slow_reload {
+            k += 1;
+            mem.write("w0", "w", format!("{k}").as_bytes());
+            mem.write("w0", "wc", format!("s{k}").as_bytes());
+            let target = EVENTS_HANDLED.load(Ordering::SeqCst) + 1;
+            mem.send(vec![OwnedDirEntry::File("w0".into(), "w".into()), OwnedDirEntry::File("w0".into(), "wc".into())]);
+            if wait_events(target) {
+                started.fetch_add(1, Ordering::SeqCst);
+                let t = Instant::now();
+                cache.hot_reload();
+                let took = t.elapsed();
+                finished.fetch_add(1, Ordering::SeqCst);
+                let (v, vc) = (h.read().1[0], hc.copied().0[0]);
+                if v != k || vc != k {
+                    report("hot_reload-returned-early", format!("a reload that takes 1.6 s: hot_reload returned after {:?} with versions {v} / {vc}, expected {k}", took));
+                }
+            }
+        }
         reloads = k;
         stop.store(true, Ordering::SeqCst);
     });
@@ -207,10 +227,10 @@ fn run_scenario(sc: &Scenario, out_violations: &Mutex<Vec<(String, String)>>) ->
 pub fn run(a: &Args) {
     let ms = if a.thorough() { 8000 } else { 1200 };
     let scenarios = vec![
-        Scenario { readers_short: 2, readers_long: 0, readers_mapped: 0, pollers: 0, copiers: 2, millis: ms },
-        Scenario { readers_short: 1, readers_long: 2, readers_mapped: 1, pollers: 1, copiers: 1, millis: ms },
-        Scenario { readers_short: 3, readers_long: 3, readers_mapped: 2, pollers: 2, copiers: 2, millis: ms },
-        Scenario { readers_short: 0, readers_long: 1, readers_mapped: 0, pollers: 1, copiers: 0, millis: ms / 2 },
+        Scenario { readers_short: 2, readers_long: 0, readers_mapped: 0, pollers: 0, copiers: 2, slow_reload: true, millis: ms },
+        Scenario { readers_short: 1, readers_long: 2, readers_mapped: 1, pollers: 1, copiers: 1, slow_reload: false, millis: ms },
+        Scenario { readers_short: 3, readers_long: 3, readers_mapped: 2, pollers: 2, copiers: 2, slow_reload: false, millis: ms },
+        Scenario { readers_short: 0, readers_long: 1, readers_mapped: 0, pollers: 1, copiers: 0, slow_reload: false, millis: ms / 2 },
     ];
     let violations = Mutex::new(vec![]);
     let mut total_reloads = 0;
